@@ -836,6 +836,30 @@ func init() {
 			}
 			return tFalse
 		},
+		"k8s.io/client-go/util/retry.RetryOnConflict": func(ex *Exec, fr *frame, fn *ssa.Function, args []Value, pos tokenPos) Value {
+			// bound: at most 2 attempts
+			f := args[1].(FuncV)
+			err := ex.callFn(fr, f, nil, pos)
+			if e, ok := err.(IfaceV); ok && e.t != nil {
+				isConflict := icReason("Conflict")(ex, fr, fn, []Value{e}, pos).(*Term)
+				if ex.branch(isConflict) {
+					return ex.callFn(fr, f, nil, pos)
+				}
+			}
+			return err
+		},
+		"k8s.io/client-go/util/retry.OnError": func(ex *Exec, fr *frame, fn *ssa.Function, args []Value, pos tokenPos) Value {
+			retriable := args[1].(FuncV)
+			f := args[2].(FuncV)
+			err := ex.callFn(fr, f, nil, pos)
+			if e, ok := err.(IfaceV); ok && e.t != nil {
+				r := asTerm(ex.callFn(fr, retriable, []Value{e}, pos))
+				if ex.branch(r) {
+					return ex.callFn(fr, f, nil, pos)
+				}
+			}
+			return err
+		},
 		// ---------------- k8s api errors ----------------
 		"k8s.io/apimachinery/pkg/api/errors.IsNotFound":      icReason("NotFound"),
 		"k8s.io/apimachinery/pkg/api/errors.IsAlreadyExists": icReason("AlreadyExists"),
